@@ -118,14 +118,28 @@ Fixpoint sort_rows (l : list row) : list row :=
   | x :: r => insert_row x (sort_rows r)
   end.
 
-(* ---- the run-length arithmetic of SortReader, sort.go:61-69 ----
+(* ---- the run-length arithmetic of SortReader, sort.go:61-72 ----
      bytesPerRow := size / n
-     targetRows := spillTarget / bytesPerRow          (integer divide by zero: panic)
+     if bytesPerRow < 1 { bytesPerRow = 1 }
+     targetRows := spillTarget / bytesPerRow
      if targetRows < sliceio.SpillBatchSize { targetRows = sliceio.SpillBatchSize }
      if math.Abs(float64(f.Len()-targetRows)/float64(targetRows)) > 0.05 { f = f.Ensure(targetRows) }
    n = f.Len() = cur at this point.  For integers below 2^50, |d|/t > 0.05 in
-   float64 iff 20*|d| > t.  [None] = run-time panic. *)
+   float64 iff 20*|d| > t.  [None] = run-time panic (integer divide by zero); with the
+   clamp it only remains for n = 0, i.e. a canary size of 0, outside the property. *)
 Definition real_next (target batch size : Z) (cur : nat) : option nat :=
+  let n := Z.of_nat cur in
+  if n =? 0 then None
+  else
+    let bpr0 := Z.quot size n in
+    let bpr := if bpr0 <? 1 then 1 else bpr0 in
+    let t0 := Z.quot target bpr in
+    let t := if t0 <? batch then batch else t0 in
+    if 20 * Z.abs (n - t) >? t then Some (Z.to_nat t) else Some cur.
+
+(* the arithmetic before the clamp was added (commit a84f39d): bytesPerRow = 0 when a run
+   encodes to fewer bytes than it has rows, and spillTarget / 0 panics *)
+Definition real_next_unclamped (target batch size : Z) (cur : nat) : option nat :=
   let n := Z.of_nat cur in
   let bpr := Z.quot size n in
   if bpr =? 0 then None
